@@ -52,19 +52,23 @@ for T in $TARGETS; do
         CHK="decode-bytes"; [ "$ID" = "C18" ] && CHK="options-bytes"
         J="$VERIF_DIR/replays/$ID-$T-$(basename "$CRASH").json"
         printf '{"property":"%s","check":"%s","reason":"libFuzzer artifact","case":"%s"}\n' "$ID" "$CHK" "$HEX" > "$J"
-        if "$BIN" "$ID" --replay "$J" >/dev/null 2>&1; then
-          echo "INCONCLUSIVE: libFuzzer artifact $KEEP does not reproduce in the strict replay"; rc=2
-        else
+        "$BIN" "$ID" --replay "$J" >/dev/null 2>&1; rrc=$?
+        if [ $rrc -eq 1 ]; then
           echo "reason: $REASON"; echo "VIOLATION property=$ID replay=$J"; rc=1
+        else
+          echo "INCONCLUSIVE: libFuzzer artifact $KEEP does not reproduce as a violation in the strict replay (replay exit $rrc)"; rc=2
         fi ;;
       fz_history)
         J="$VERIF_DIR/replays/$ID-$T-$(basename "$CRASH").json"
         if ! "$BIN" hist-json "$ID" "$CRASH" "$J" >/dev/null 2>&1; then
           echo "INCONCLUSIVE: libFuzzer artifact $KEEP could not be converted into a history"; rc=2
-        elif "$BIN" "$ID" --replay "$J" >/dev/null 2>&1; then
-          echo "INCONCLUSIVE: libFuzzer artifact $KEEP ($REASON) does not reproduce in the replay of $J"; rc=2
         else
-          echo "reason: $REASON"; echo "VIOLATION property=$ID replay=$J"; rc=1
+          "$BIN" "$ID" --replay "$J" >/dev/null 2>&1; rrc=$?
+          if [ $rrc -eq 1 ]; then
+            echo "reason: $REASON"; echo "VIOLATION property=$ID replay=$J"; rc=1
+          else
+            echo "INCONCLUSIVE: libFuzzer artifact $KEEP ($REASON) does not reproduce as a violation in the replay of $J (replay exit $rrc)"; rc=2
+          fi
         fi ;;
       *)
         if echo "$REASON" | grep -q "VIOLATION.*$ID\|VIOLATION C03"; then
